@@ -1,7 +1,31 @@
-// c21 drives the REAL library with a flow rule, an isolation rule, a hot-parameter concurrency rule and an error-count
-// circuit breaker loaded on one resource at the same time, through the default global slot chain (api.Entry), under the
-// virtual clock.  One tick = 500 ms.  The recorded decisions (admitted / block type) are judged by
-// spec/Sentinel_Trace.tla against the composition of spec/SentinelOps.tla.
+// c21 drives the REAL library through the default global slot chain (api.Entry, public API only) with every rule
+// kind loaded at once: per resource (one or two per scenario) a reject-mode flow rule, an isolation rule, a
+// hot-parameter concurrency rule and a hot-parameter QPS rule (reject mode) on argument 0, an error-count circuit
+// breaker; and the system rules of the process (system.Concurrency, system.InboundQPS) on the global inbound node.
+// Rules are replaced in the middle of a scenario while entries are in flight.  One tick = 500 ms of the virtual
+// clock.  The recorded decisions (admitted / block type) and in-flight gauges are judged by spec/Sentinel_Trace.tla
+// against the composition of spec/SentinelOps.tla.
+//
+// scenario ops:
+//
+//	new    {tr, t0, rules:{sys:{conc,qps}, res:[{flow,iso,hot,hq,hqB,hqD,cbE,cbTO}, ...]}}   (-1 = no such rule)
+//	enter  {r, id, b, arg, ty}     api.Entry("c21_<tr>_<r>", WithBatchCount(b), WithTrafficType(ty), WithArgs(arg))
+//	exit   {id, err, via}          THE completion of an admitted entry: Exit(); with err: Exit(WithError(e)), or (via
+//	                               "trace") api.TraceError(entry, e) followed by Exit().  On an entry that has
+//	                               already completed it is a late call; ignored if the request was refused.
+//	trace  {id}                    api.TraceError on the open entry (it stays open); late call on a completed one
+//	late   {id, how}               on a completed entry: how = exit -> Exit(), exiterr -> Exit(WithError(e)),
+//	                               trace -> api.TraceError(entry, e)
+//	tick   {d}                     clock += d ticks
+//	reload {r, mod, val, via}      mod flow|iso|hot|hq|cb: the rule(s) of that module for resource r become val
+//	                               (via "res": X.LoadRulesOfResource, "all": X.LoadRules with the rules of every
+//	                               resource of the scenario); mod sys (r = 0): system.LoadRules
+//
+// The global inbound node is a process-wide object built with the real clock: scenarios run at hx.BaseMs + t, every
+// scenario starts more than 20 virtual seconds after the last instant of the previous one (inbound windows expired)
+// and inside ONE 10-minute statistic bucket of the breakers; at the end of a scenario the driver exits every open
+// entry and records the gauges ("end"); the inbound gauge is recorded as the difference to its value at the start
+// of the scenario.  System rules (and all others) are cleared between scenarios.
 //
 // usage: c21 <scenarios.ndjson> <trace.ndjson>
 package main
@@ -17,11 +41,223 @@ import (
 	"github.com/alibaba/sentinel-golang/core/flow"
 	"github.com/alibaba/sentinel-golang/core/hotspot"
 	"github.com/alibaba/sentinel-golang/core/isolation"
+	"github.com/alibaba/sentinel-golang/core/stat"
+	"github.com/alibaba/sentinel-golang/core/system"
 
 	"verifharness/hx"
 )
 
-const tick = int64(500)
+const (
+	tick     = int64(500)
+	cbBucket = int64(600000) // the breaker's statistic bucket must not roll within a scenario
+)
+
+var errBiz = errors.New("x")
+
+type rr struct{ flow, iso, hot, hq, hqB, hqD, cbE, cbTO int64 }
+
+type run struct {
+	tr              int64
+	names           []string
+	rules           []rr
+	sysConc, sysQps int64
+	open, done      map[int64]*base.SentinelEntry
+	resOf           map[int64]int
+	g0              int32
+}
+
+func readRR(m hx.M) rr {
+	return rr{hx.Int(m, "flow"), hx.Int(m, "iso"), hx.Int(m, "hot"), hx.Int(m, "hq"), hx.Int(m, "hqB"), hx.Int(m, "hqD"), hx.Int(m, "cbE"), hx.Int(m, "cbTO")}
+}
+
+func (r *run) flowRules(i int) []*flow.Rule {
+	if f := r.rules[i].flow; f >= 0 {
+		return []*flow.Rule{{Resource: r.names[i], TokenCalculateStrategy: flow.Direct, ControlBehavior: flow.Reject, Threshold: float64(f)}}
+	}
+	return nil
+}
+
+func (r *run) isoRules(i int) []*isolation.Rule {
+	if n := r.rules[i].iso; n >= 0 {
+		return []*isolation.Rule{{Resource: r.names[i], MetricType: isolation.Concurrency, Threshold: uint32(n)}}
+	}
+	return nil
+}
+
+// the concurrency rule first, then the QPS rule: the order in which the hotspot slot consults them
+func (r *run) hotRules(i int) []*hotspot.Rule {
+	var out []*hotspot.Rule
+	x := r.rules[i]
+	if x.hot >= 0 {
+		out = append(out, &hotspot.Rule{Resource: r.names[i], MetricType: hotspot.Concurrency, ParamIndex: 0, Threshold: x.hot})
+	}
+	if x.hq >= 0 {
+		out = append(out, &hotspot.Rule{Resource: r.names[i], MetricType: hotspot.QPS, ControlBehavior: hotspot.Reject, ParamIndex: 0,
+			Threshold: x.hq, BurstCount: x.hqB, DurationInSec: x.hqD})
+	}
+	return out
+}
+
+func (r *run) cbRules(i int) []*cb.Rule {
+	if e := r.rules[i].cbE; e >= 0 {
+		return []*cb.Rule{{Resource: r.names[i], Strategy: cb.ErrorCount, RetryTimeoutMs: uint32(r.rules[i].cbTO * tick),
+			MinRequestAmount: 1, StatIntervalMs: uint32(cbBucket), StatSlidingWindowBucketCount: 1, Threshold: float64(e)}}
+	}
+	return nil
+}
+
+func must(what string, err error) {
+	if err != nil {
+		hx.Fatal("%s: %v", what, err)
+	}
+}
+
+// load puts the current rules of one module in force: for resource i (via "res") or for all resources (via "all")
+func (r *run) load(mod string, i int, via string) {
+	all := via == "all"
+	switch mod {
+	case "flow":
+		if all {
+			var l []*flow.Rule
+			for k := range r.names {
+				l = append(l, r.flowRules(k)...)
+			}
+			_, err := flow.LoadRules(l)
+			must("flow.LoadRules", err)
+		} else {
+			_, err := flow.LoadRulesOfResource(r.names[i], r.flowRules(i))
+			must("flow.LoadRulesOfResource", err)
+		}
+	case "iso":
+		if all {
+			var l []*isolation.Rule
+			for k := range r.names {
+				l = append(l, r.isoRules(k)...)
+			}
+			_, err := isolation.LoadRules(l)
+			must("isolation.LoadRules", err)
+		} else {
+			_, err := isolation.LoadRulesOfResource(r.names[i], r.isoRules(i))
+			must("isolation.LoadRulesOfResource", err)
+		}
+	case "hot", "hq":
+		if all {
+			var l []*hotspot.Rule
+			for k := range r.names {
+				l = append(l, r.hotRules(k)...)
+			}
+			_, err := hotspot.LoadRules(l)
+			must("hotspot.LoadRules", err)
+		} else {
+			_, err := hotspot.LoadRulesOfResource(r.names[i], r.hotRules(i))
+			must("hotspot.LoadRulesOfResource", err)
+		}
+	case "cb":
+		if all {
+			var l []*cb.Rule
+			for k := range r.names {
+				l = append(l, r.cbRules(k)...)
+			}
+			_, err := cb.LoadRules(l)
+			must("circuitbreaker.LoadRules", err)
+		} else {
+			_, err := cb.LoadRulesOfResource(r.names[i], r.cbRules(i))
+			must("circuitbreaker.LoadRulesOfResource", err)
+		}
+	case "sys":
+		var l []*system.Rule
+		if r.sysConc >= 0 {
+			l = append(l, &system.Rule{MetricType: system.Concurrency, TriggerCount: float64(r.sysConc), Strategy: system.NoAdaptive})
+		}
+		if r.sysQps >= 0 {
+			l = append(l, &system.Rule{MetricType: system.InboundQPS, TriggerCount: float64(r.sysQps), Strategy: system.NoAdaptive})
+		}
+		_, err := system.LoadRules(l)
+		must("system.LoadRules", err)
+	default:
+		hx.Fatal("unknown module %q", mod)
+	}
+}
+
+func clearAll() {
+	must("flow.ClearRules", flow.ClearRules())
+	must("isolation.ClearRules", isolation.ClearRules())
+	must("hotspot.ClearRules", hotspot.ClearRules())
+	must("circuitbreaker.ClearRules", cb.ClearRules())
+	must("system.ClearRules", system.ClearRules())
+}
+
+func (r *run) gi() int64 { return int64(stat.InboundNode().CurrentConcurrency() - r.g0) }
+func (r *run) gr(i int) int64 {
+	if n := stat.GetResourceNode(r.names[i]); n != nil {
+		return int64(n.CurrentConcurrency())
+	}
+	return 0
+}
+
+// finish exits what is still open and records the gauges
+func (r *run) finish(tr *hx.Trace) {
+	if r == nil {
+		return
+	}
+	for _, e := range r.open {
+		e.Exit()
+	}
+	gr := make([]int64, len(r.names))
+	for i := range r.names {
+		gr[i] = r.gr(i)
+	}
+	tr.Emit(hx.M{"op": "end", "gi": r.gi(), "gr": gr})
+	clearAll()
+}
+
+func late(e *base.SentinelEntry, how string) {
+	switch how {
+	case "exit":
+		e.Exit()
+	case "exiterr":
+		e.Exit(base.WithError(errBiz))
+	case "trace":
+		api.TraceError(e, errBiz)
+	default:
+		hx.Fatal("unknown late call %q", how)
+	}
+}
+
+func enter(name string, b int64, arg, ty string) (e *base.SentinelEntry, bt string) {
+	defer func() {
+		if p := recover(); p != nil {
+			e, bt = nil, "panic"
+		}
+	}()
+	tt := base.Outbound
+	if ty == "in" {
+		tt = base.Inbound
+	}
+	opts := []api.EntryOption{api.WithBatchCount(uint32(b)), api.WithTrafficType(tt)}
+	if arg != "none" {
+		opts = append(opts, api.WithArgs(arg))
+	}
+	e, be := api.Entry(name, opts...)
+	if be == nil {
+		return e, "none"
+	}
+	switch be.BlockType() {
+	case base.BlockTypeSystemFlow:
+		bt = "system"
+	case base.BlockTypeFlow:
+		bt = "flow"
+	case base.BlockTypeIsolation:
+		bt = "isolation"
+	case base.BlockTypeHotSpotParamFlow:
+		bt = "hotspot"
+	case base.BlockTypeCircuitBreaking:
+		bt = "breaker"
+	default:
+		bt = "other"
+	}
+	return nil, bt
+}
 
 func main() {
 	if len(os.Args) < 3 {
@@ -31,89 +267,139 @@ func main() {
 	if err != nil {
 		hx.Fatal("%v", err)
 	}
+	clk := hx.NewVClock(hx.BaseMs(cbBucket) * 1e6)
+	clk.Install()
 	hx.InitSentinel()
 	tr := hx.NewTrace(os.Args[2])
 	defer tr.Close()
-	clk := hx.NewVClock(1e6)
-	clk.Install()
-	var res string
-	live := map[int64]*base.SentinelEntry{}
-	for _, s := range scn {
-		switch hx.Str(s, "op") {
+	var r *run
+	for k, s := range scn {
+		op := hx.Str(s, "op")
+		if op != "new" && r == nil {
+			hx.Fatal("scenario does not start with new")
+		}
+		switch op {
 		case "new":
-			for _, e := range live {
-				e.Exit()
-			}
-			live = map[int64]*base.SentinelEntry{}
-			trn := hx.Int(s, "tr")
-			res = fmt.Sprintf("c21_%d", trn)
-			r := s["rules"].(map[string]interface{})
-			base0 := hx.BaseMs(600000) // the breaker's 10-minute statistic bucket must not roll within a scenario
+			r.finish(tr)
 			t0 := hx.Int(s, "t0")
-			clk.SetMs(base0 + t0*tick)
-			if f := hx.Int(r, "flow"); f >= 0 {
-				if _, err := flow.LoadRulesOfResource(res, []*flow.Rule{{Resource: res, TokenCalculateStrategy: flow.Direct, ControlBehavior: flow.Reject, Threshold: float64(f)}}); err != nil {
-					hx.Fatal("flow: %v", err)
+			span := t0
+			for _, x := range scn[k+1:] {
+				if hx.Str(x, "op") == "new" {
+					break
+				}
+				if hx.Str(x, "op") == "tick" {
+					span += hx.Int(x, "d")
 				}
 			}
-			if n := hx.Int(r, "iso"); n >= 0 {
-				if _, err := isolation.LoadRulesOfResource(res, []*isolation.Rule{{Resource: res, MetricType: isolation.Concurrency, Threshold: uint32(n)}}); err != nil {
-					hx.Fatal("isolation: %v", err)
+			spanMs := span*tick + 1000
+			if spanMs >= cbBucket {
+				hx.Fatal("scenario %d spans %d ms: longer than the breaker's statistic bucket", hx.Int(s, "tr"), spanMs)
+			}
+			// a whole second, more than 20 s after everything that happened so far, the scenario inside one breaker bucket
+			epoch := (clk.NowMs()/1000 + 22) * 1000
+			if epoch/cbBucket != (epoch+spanMs)/cbBucket {
+				epoch = (epoch/cbBucket + 1) * cbBucket
+			}
+			clk.SetMs(epoch + t0*tick)
+			rules := s["rules"].(map[string]interface{})
+			sys := rules["sys"].(map[string]interface{})
+			resl := rules["res"].([]interface{})
+			r = &run{tr: hx.Int(s, "tr"), sysConc: hx.Int(sys, "conc"), sysQps: hx.Int(sys, "qps"),
+				open: map[int64]*base.SentinelEntry{}, done: map[int64]*base.SentinelEntry{}, resOf: map[int64]int{}}
+			for i, x := range resl {
+				r.names = append(r.names, fmt.Sprintf("c21_%d_%d", r.tr, i+1))
+				r.rules = append(r.rules, readRR(x.(map[string]interface{})))
+			}
+			r.g0 = stat.InboundNode().CurrentConcurrency()
+			for i := range r.names {
+				for _, mod := range []string{"flow", "iso", "hot", "cb"} {
+					r.load(mod, i, "res")
 				}
 			}
-			if h := hx.Int(r, "hot"); h >= 0 {
-				if _, err := hotspot.LoadRulesOfResource(res, []*hotspot.Rule{{Resource: res, MetricType: hotspot.Concurrency, ParamIndex: 0, Threshold: h}}); err != nil {
-					hx.Fatal("hotspot: %v", err)
-				}
-			}
-			if e := hx.Int(r, "cbE"); e >= 0 {
-				if _, err := cb.LoadRulesOfResource(res, []*cb.Rule{{Resource: res, Strategy: cb.ErrorCount, RetryTimeoutMs: uint32(hx.Int(r, "cbTO") * tick),
-					MinRequestAmount: 1, StatIntervalMs: 600000, StatSlidingWindowBucketCount: 1, Threshold: float64(e)}}); err != nil {
-					hx.Fatal("breaker: %v", err)
-				}
-			}
-			tr.Emit(hx.M{"op": "new", "tr": trn, "rules": r, "t0": t0})
+			r.load("sys", 0, "")
+			tr.Emit(hx.M{"op": "new", "tr": r.tr, "rules": rules, "t0": t0})
 		case "enter":
-			id, b, arg := hx.Int(s, "id"), hx.Int(s, "b"), hx.Str(s, "arg")
-			opts := []api.EntryOption{api.WithBatchCount(uint32(b))}
-			if arg != "none" {
-				opts = append(opts, api.WithArgs(arg))
+			i, id, b, arg, ty := int(hx.Int(s, "r"))-1, hx.Int(s, "id"), hx.Int(s, "b"), hx.Str(s, "arg"), hx.Str(s, "ty")
+			if i < 0 || i >= len(r.names) {
+				hx.Fatal("no resource %d", i+1)
 			}
-			e, be := api.Entry(res, opts...)
-			bt := "none"
-			if be != nil {
-				switch be.BlockType() {
-				case base.BlockTypeFlow:
-					bt = "flow"
-				case base.BlockTypeIsolation:
-					bt = "isolation"
-				case base.BlockTypeHotSpotParamFlow:
-					bt = "hotspot"
-				case base.BlockTypeCircuitBreaking:
-					bt = "breaker"
-				default:
-					bt = "other"
-				}
-			} else {
-				live[id] = e
+			e, bt := enter(r.names[i], b, arg, ty)
+			if e != nil {
+				r.open[id] = e
+				r.resOf[id] = i
 			}
-			tr.Emit(hx.M{"op": "enter", "id": id, "b": b, "arg": arg, "ok": be == nil, "bt": bt})
+			tr.Emit(hx.M{"op": "enter", "r": i + 1, "id": id, "b": b, "arg": arg, "ty": ty, "ok": e != nil, "bt": bt, "gi": r.gi(), "gr": r.gr(i)})
 		case "exit":
+			id, werr := hx.Int(s, "id"), s["err"] == true
+			if e, ok := r.open[id]; ok {
+				i := r.resOf[id]
+				switch {
+				case werr && hx.Str(s, "via") == "trace":
+					api.TraceError(e, errBiz)
+					e.Exit()
+				case werr:
+					e.Exit(base.WithError(errBiz))
+				default:
+					e.Exit()
+				}
+				delete(r.open, id)
+				r.done[id] = e
+				tr.Emit(hx.M{"op": "exit", "r": i + 1, "id": id, "err": werr, "gi": r.gi(), "gr": r.gr(i)})
+			} else if e, ok := r.done[id]; ok {
+				how := "exit"
+				if werr {
+					how = "exiterr"
+				}
+				late(e, how)
+				i := r.resOf[id]
+				tr.Emit(hx.M{"op": "late", "r": i + 1, "id": id, "how": how, "gi": r.gi(), "gr": r.gr(i)})
+			}
+		case "trace":
 			id := hx.Int(s, "id")
-			e := live[id]
-			if e == nil {
-				continue // the request was rejected
+			if e, ok := r.open[id]; ok {
+				api.TraceError(e, errBiz)
+				tr.Emit(hx.M{"op": "trace", "r": r.resOf[id] + 1, "id": id})
+			} else if e, ok := r.done[id]; ok {
+				late(e, "trace")
+				i := r.resOf[id]
+				tr.Emit(hx.M{"op": "late", "r": i + 1, "id": id, "how": "trace", "gi": r.gi(), "gr": r.gr(i)})
 			}
-			delete(live, id)
-			if s["err"] == true {
-				api.TraceError(e, errors.New("x"))
+		case "late":
+			id, how := hx.Int(s, "id"), hx.Str(s, "how")
+			if e, ok := r.done[id]; ok {
+				late(e, how)
+				i := r.resOf[id]
+				tr.Emit(hx.M{"op": "late", "r": i + 1, "id": id, "how": how, "gi": r.gi(), "gr": r.gr(i)})
 			}
-			e.Exit()
-			tr.Emit(hx.M{"op": "exit", "id": id, "err": s["err"] == true})
 		case "tick":
 			d := hx.Int(s, "d")
 			clk.AdvanceMs(d * tick)
 			tr.Emit(hx.M{"op": "tick", "d": d})
+		case "reload":
+			i, mod, via := int(hx.Int(s, "r"))-1, hx.Str(s, "mod"), hx.Str(s, "via")
+			val := s["val"].(map[string]interface{})
+			if mod != "sys" && (i < 0 || i >= len(r.names)) {
+				hx.Fatal("no resource %d", i+1)
+			}
+			switch mod {
+			case "flow":
+				r.rules[i].flow = hx.Int(val, "v")
+			case "iso":
+				r.rules[i].iso = hx.Int(val, "v")
+			case "hot":
+				r.rules[i].hot = hx.Int(val, "v")
+			case "hq":
+				r.rules[i].hq, r.rules[i].hqB, r.rules[i].hqD = hx.Int(val, "hq"), hx.Int(val, "hqB"), hx.Int(val, "hqD")
+			case "cb":
+				r.rules[i].cbE, r.rules[i].cbTO = hx.Int(val, "cbE"), hx.Int(val, "cbTO")
+			case "sys":
+				r.sysConc, r.sysQps = hx.Int(val, "conc"), hx.Int(val, "qps")
+			}
+			r.load(mod, i, via)
+			tr.Emit(hx.M{"op": "reload", "r": hx.Int(s, "r"), "mod": mod, "val": val, "via": via})
+		default:
+			hx.Fatal("unknown op %q", op)
 		}
 	}
+	r.finish(tr)
 }
